@@ -207,6 +207,15 @@ class W:
     def s_interface(self):
         n = self.uid()
         t = self.simple_type()
+        if self.chance(30):
+            # a marker: a type without body and without parent, alone or implemented / refined
+            form = self.pick(["alone", "implemented", "refined"])
+            lines = ["type Mk%d" % n]
+            if form == "implemented":
+                lines += ["class Mi%d: Mk%d" % (n, n), "    def mfield%d: %s := %s" % (n, t, self.lit(t)), "def mo%d := Mi%d()" % (n, n)]
+            elif form == "refined":
+                lines += ["type Mr%d: Mk%d" % (n, n), "class Mi%d: Mr%d" % (n, n), "    def mfield%d: %s := %s" % (n, t, self.lit(t))]
+            return lines
         return ["type If%d" % n, "    def need%d(self, pp%d: %s) -> %s" % (n, n, t, t),
                 "class Im%d: If%d" % (n, n), "    def need%d(self, pp%d: %s) -> %s => pp%d" % (n, n, t, t, n)]
 
